@@ -81,6 +81,10 @@ func (self *StreamDecoder) Decode(val interface{}) (err error) {
 			if self.err == nil {
 				self.err = SyntaxError{e, self.s, types.ParsingError(-s), ""}
 				self.setErr(self.err)
+			} else if self.err == io.EOF {
+				// the input ended inside a value, or on bytes that cannot begin one:
+				// that is not a clean end of stream
+				self.err = io.ErrUnexpectedEOF
 			}
 			return self.err
 		} else {
